@@ -17,6 +17,24 @@ CLAIMS = {
        "Tie: constants and the 0x110000-scalar upper-casing dump are regenerated on every run; 200k (quick) calls of the real functions are compared with the model; an independent CFB-order oracle searches for failing names. The sibling-set/API half of the property is decided by the directory model of C01.",
   note="Trusted: Lean kernel; axioms ⊆ {propext, Classical.choice, Quot.sound}; translator + H2 dump; harness generators. Assumption: the upper-casing table is the library's (MS-CFB's normative table is unavailable offline); Path::components modelled for UTF-8 Unix paths.",
   design="§3 C09"),
+ "C01": dict(
+  technique="Lean 4 refinement proofs: the directory model (BST per storage with library's leaf insert and predecessor-relinking removal, explicit-stack iterators, path-level API) implements a partial map from case-insensitive paths to objects; invariant by induction over all histories; + lock-step replay of API histories at result level and directory-table level (hook H3)",
+  text="Proof: CfbVerif.Props.C01 — create/overwrite/whole-stream write (C01_create), remove (C01_remove) and the setters (C01_setMeta) act on the abstract path map at exactly one path with exactly the stated refusals; lookups are functions of the map (C01_lookup); read_storage = in-order, strictly sorted in CFB order and complete (C01_listing, iterator = traversal: listKids_eq/walkAll_eq); walk is pre-order (C01_walk); the directory invariant holds after every history (C01_reachable). "
+       "Tie: every insertion x removal order of 4 (quick: sampled 5) sibling names plus random/deep/refusal histories, both versions, reopen inside, compared after every call at result level and row by row with the library's in-memory directory table; an independent nested-map reference model in the harness is the search oracle.",
+  note="Partial by design: stream bytes are lists in this model — that the chain layer stores them is lock-step only (content half). Trusted: Lean kernel, standard axioms, translator + H2/H3 hooks, harness generators; upper-casing table is the library's.",
+  design="§3 C01"),
+ "C10": dict(
+  technique="Lean 4 proof that every refusing exit of the modelled API precedes the first mutation (incl. the create_storage_all loop) + lock-step with byte comparison of the image before/after every refused call",
+  text="Proof: CfbVerif.Props.C10 — a call answered NotFound/AlreadyExists/InvalidInput leaves the whole model state unchanged (C10_refusal_noop, C10_mkdirs_atomic: a refusal cannot follow a creation inside create_storage_all), invalid names are refused first (C10_invalid_name_rejected), refused seeks leave handle and store untouched (C10_seek_refused). "
+       "Tie: histories with ~40% refusals of every class; after each refused call the harness compares the backing bytes bit for bit (oracle) and model/implementation agree at levels O and D.",
+  note="remove_storage_all: only the initial NotFound is proved a no-op (inner removals refusal-free by lock-step). Byte-level unchangedness is observed, not proved. Trusted base as C01.",
+  design="§3 C10"),
+ "C17": dict(
+  technique="Lean 4 proofs of the FILETIME conversion arithmetic (rounding toward the epoch, saturation, exact return, monotonicity), CLSID/LE codecs, and setter semantics on the directory model + differential replay through hook H2 and API histories with reopen",
+  text="Proof: CfbVerif.Props.C17 — tsOf formulas (C17_ts_of_time_nonneg/neg: 100 ns ticks toward the Unix epoch, saturating 1601..u64::MAX), exact return of every 64-bit timestamp (C17_time_of_ts), monotone (C17_mono) hence a new storage's times lie between the clock readings (C17_fresh_between), CLSID and LE round trips (C17_guid, C17_le_roundtrip); setters: NotFound / InvalidInput for CLSID on streams / streams keep nil CLSID and zero times (C01_setMeta, C01_stream_info). "
+       "Tie: 300k conversions through H2 vs model and an i128 oracle; API histories setting random CLSIDs/state words/extreme times on storages, root and streams with listings and reopen in both modes (O+D); clock-reading bounds checked on the implementation at every create_storage.",
+  note="SystemTime modelled as (i64 s, u32 ns) as on 64-bit Linux. 'Survives reopening' rests on lock-step (reopen inside histories) until the reader model's codec theorems (C02). Trusted base as C01.",
+  design="§3 C17"),
 }
 
 def main():
